@@ -179,7 +179,17 @@ int XMLDateTime::compare(const XMLDateTime* const pDate1
     int resultA, resultB = INDETERMINATE;
 
     //try and see if the objects are equal
-    if ( (resultA = compareOrder(pDate1, pDate2)) == EQUAL)
+    //
+    //Note: the fields of a negative duration are negative, and its utc
+    //      field only records the sign. compareOrder() must not be used
+    //      here, it would take that for a time zone and normalize the
+    //      components as if they were a date.
+    //
+    bool sameFields = (pDate1->fMilliSecond == pDate2->fMilliSecond);
+    for ( int i = CentYear; sameFields && i <= Second; i++ )
+        sameFields = (pDate1->fValue[i] == pDate2->fValue[i]);
+
+    if ( sameFields )
         return EQUAL;
 
     //long comparison algorithm is required
